@@ -1,6 +1,6 @@
 ---------------------------- MODULE TracePipeline ----------------------------
 (* Direction B: validation of sessions recorded from the real PipelineContext   *)
-(* objects against the actions of Pipeline.tla.                                 *)
+(* objects against the guard Pre and the effect Post of Pipeline.tla.           *)
 (*                                                                              *)
 (* The file named by the environment variable TRACE_FILE holds one JSON record  *)
 (* per public call, many traces one after the other (field tid); every record   *)
@@ -11,92 +11,86 @@
 (* first sight) of the compiled object of every symbolic circuit, and the order *)
 (* in which each context compiled circuits.                                     *)
 (*                                                                              *)
-(* A record is accepted iff Pre holds in the model state, and the logged        *)
-(* projection equals the projection of Post, object identities being compared   *)
-(* up to a renaming that must extend the renaming of the previous step          *)
-(* (compiled objects are never replaced) and be injective (never shared).       *)
-(* A trace is accepted iff all its records are.                                 *)
+(* A record is accepted iff Pre holds in the model state and the logged         *)
+(* projection equals the projection of Post, where                              *)
+(*  - object identities are compared up to a renaming that must extend the      *)
+(*    renaming of the previous step (compiled objects are never replaced) and   *)
+(*    be injective (never shared between circuits or contexts);                 *)
+(*  - the order in which a context compiles the circuits of one call may be any *)
+(*    order in which operands come first (Pipeline.tla picks one); the logged   *)
+(*    order is adopted as the model state if it is admissible: append-only,     *)
+(*    exactly the circuits the model compiles, each once, operands first.       *)
+(* A trace is accepted iff all its records are.  One TLC step validates one     *)
+(* whole trace (the run of records with the same tid).                          *)
 EXTENDS Pipeline, IOUtils
 
-Trace == ndJsonDeserialize(IOEnv.TRACE_FILE)
+(* the file is parsed once (TInit) into TLC register 1: -workers 1 *)
+Trace == TLCGet(1)
 Lines == Len(Trace)
 
-VARIABLES l,       \* next line to consume
-          cur,     \* tid of the trace being validated (0: none)
-          idmap    \* model object id -> logged object id
-tvars == <<vars, l, cur, idmap>>
+VARIABLES l        \* first line of the next trace to validate
+tvars == <<vars, l>>
 
 TCtxs == {1, 2, 3}
 
-ev == Trace[l]
-T == Post(State, ev)
-
-LoggedOf(m) ==
+LoggedOf(T, e, m) ==
   LET p == CHOOSE p \in AllCtx \X (1..NSof(T)) : T.comp[p[1]][p[2]] = m
-  IN ev.comp[p[1] + 1][p[2]]
-NewIdmap == [m \in 1..T.nobj |-> LoggedOf(m)]
+  IN e.comp[p[1] + 1][p[2]]
+NewIdmap(T, e) == [m \in 1..T.nobj |-> LoggedOf(T, e, m)]
 
-ShapeOK == /\ Len(ev.comp) = Cardinality(AllCtx) /\ Len(ev.order) = Cardinality(AllCtx)
-           /\ \A c \in AllCtx : Len(ev.comp[c + 1]) = NSof(T)
+ShapeOK(T, e) == /\ Len(e.comp) = Cardinality(AllCtx) /\ Len(e.order) = Cardinality(AllCtx)
+                 /\ \A c \in AllCtx : Len(e.comp[c + 1]) = NSof(T)
 
-(* The order in which a context compiles the circuits of one call is any order in which    *)
-(* operands come first (Pipeline.tla picks one representative); the logged order is         *)
-(* adopted as the model state if it is admissible: the old order is a prefix (append-only), *)
-(* exactly the circuits the model compiles are added, each once, operands first.            *)
-LoggedOrder == [c \in AllCtx |-> ev.order[c + 1]]
-OrderOK ==
+OrderOK(S, T, e) ==
   \A c \in AllCtx :
-    LET old == State.order[c]
-        new == ev.order[c + 1] IN
+    LET old == S.order[c]
+        new == e.order[c + 1] IN
     /\ Len(new) = Len(T.order[c])
     /\ Len(new) >= Len(old) /\ SubSeq(new, 1, Len(old)) = old
     /\ {new[k] : k \in 1..Len(new)} = {T.order[c][k] : k \in 1..Len(T.order[c])}
     /\ \A k \in 1..Len(new) : new[k] \in 1..NSof(T) /\
           \A j \in 1..Len(T.syms[new[k]].args) :
              \E i \in 1..(k - 1) : new[i] = T.syms[new[k]].args[j]
-Tadopt == [T EXCEPT !.order = LoggedOrder]
 
-Matches ==
-  /\ ev.ok
-  /\ Pre(State, ev)
-  /\ ev.active = ActiveOf(T)                 \* the active pipeline context
-  /\ ev.registry = ActiveOf(T)               \* ... and its operator registry
-  /\ ev.nsyms = NSof(T)
-  /\ ShapeOK
-  /\ \A c \in AllCtx : \A s \in 1..NSof(T) : (ev.comp[c + 1][s] = 0) <=> (T.comp[c][s] = 0)
-  /\ OrderOK
-  /\ LET nm == NewIdmap IN
-     /\ \A m \in 1..Len(idmap) : nm[m] = idmap[m]                         \* never replaced
-     /\ \A m1, m2 \in 1..T.nobj : m1 # m2 => nm[m1] # nm[m2]             \* never shared
+(* first failing clause of record e in model state S (0 = accepted) *)
+Clause(S, idm, e) ==
+  IF ~e.ok THEN 1                                      \* the driver saw the call misbehave
+  ELSE IF ~Pre(S, e) THEN 2                            \* the call is not enabled in the model
+  ELSE LET T == Post(S, e) IN
+       IF e.active # ActiveOf(T) THEN 3                \* active pipeline context
+       ELSE IF e.registry # ActiveOf(T) THEN 4         \* active operator registry
+       ELSE IF e.nsyms # NSof(T) \/ ~ShapeOK(T, e) THEN 5
+       ELSE IF \E c \in AllCtx : \E s \in 1..NSof(T) : (e.comp[c + 1][s] = 0) # (T.comp[c][s] = 0)
+            THEN 6                                     \* which circuits are compiled where
+       ELSE IF ~OrderOK(S, T, e) THEN 7                \* operands first, once, append-only
+       ELSE LET nm == NewIdmap(T, e) IN
+            IF \E m \in 1..Len(idm) : nm[m] # idm[m] THEN 8          \* an object was replaced
+            ELSE IF \E m1, m2 \in 1..T.nobj : m1 # m2 /\ nm[m1] = nm[m2] THEN 9   \* shared
+            ELSE 0
 
-LastOfTrace == l = Lines \/ Trace[l + 1].tid # cur
+Adopt(S, e) == [Post(S, e) EXCEPT !.order = [c \in AllCtx |-> e.order[c + 1]]]
 
-RECURSIVE SkipFrom(_)
-SkipFrom(j) == IF j > Lines \/ Trace[j].tid # cur THEN j ELSE SkipFrom(j + 1)
+RECURSIVE RunTrace(_, _, _, _)
+RunTrace(S, idm, j, tid) ==
+  IF j > Lines \/ Trace[j].tid # tid THEN [ok |-> TRUE, tid |-> tid, events |-> Trace[j - 1].seq, next |-> j]
+  ELSE LET e == Trace[j]
+           cl == Clause(S, idm, e) IN
+       IF cl = 0 THEN RunTrace(Adopt(S, e), NewIdmap(Post(S, e), e), j + 1, tid)
+       ELSE [ok |-> FALSE, tid |-> tid, line |-> e.seq, a |-> e.a, clause |-> cl, next |-> j]
 
-TInit == Init /\ l = 1 /\ cur = 0 /\ idmap = <<>>
+RECURSIVE SkipFrom(_, _)
+SkipFrom(j, tid) == IF j > Lines \/ Trace[j].tid # tid THEN j ELSE SkipFrom(j + 1, tid)
 
-Load ==
-  /\ l <= Lines /\ ev.tid # cur
-  /\ Assign(S0) /\ hist' = hist
-  /\ cur' = ev.tid /\ idmap' = <<>> /\ l' = l
+TInit == /\ TLCSet(1, ndJsonDeserialize(IOEnv.TRACE_FILE))
+         /\ Init /\ l = 1
 
-Consume ==
-  /\ l <= Lines /\ ev.tid = cur
-  /\ Matches
-  /\ Assign(Tadopt) /\ hist' = hist
-  /\ idmap' = NewIdmap
-  /\ l' = l + 1 /\ cur' = cur
-  /\ (LastOfTrace => PrintT(<<"ACCEPT", ToJson([tid |-> cur, events |-> ev.seq])>>))
+ValidateOne ==
+  /\ l <= Lines
+  /\ LET r == RunTrace(S0, <<>>, l, Trace[l].tid) IN
+     /\ IF r.ok THEN PrintT(<<"ACCEPT", ToJson([tid |-> r.tid, events |-> r.events])>>)
+        ELSE PrintT(<<"REJECT", ToJson([tid |-> r.tid, line |-> r.line, a |-> r.a, clause |-> r.clause])>>)
+     /\ l' = SkipFrom(r.next, Trace[l].tid)
+  /\ UNCHANGED vars
 
-Reject ==
-  /\ l <= Lines /\ ev.tid = cur
-  /\ ~Matches
-  /\ PrintT(<<"REJECT", ToJson([tid |-> cur, line |-> ev.seq, a |-> ev.a])>>)
-  /\ l' = SkipFrom(l) /\ cur' = cur
-  /\ UNCHANGED <<vars, idmap>>
-
-TNext == Load \/ Consume \/ Reject
-TraceSpec == TInit /\ [][TNext]_tvars
-Done == l = Lines + 1
+TraceSpec == TInit /\ [][ValidateOne]_tvars
 ==============================================================================
